@@ -10,6 +10,8 @@ Every image family is driven on the real element classes through a byte-array de
   lh_file / param_file         LighthouseConfigFileManager / ParamFileManager YAML files
   traj / led                   write-only layouts: Poly4D, Compressed*, LED timing sequences
   deck / loco                  DeckMemoryManager info section, LocoMemory / LocoMemory2 anchor data
+  realmem                      the same images through the real Memory class over a packet-level fake device:
+                               confirms that ByteMem delivers what Memory delivers (disagreement = harness error)
 """
 import itertools
 import math
@@ -202,16 +204,17 @@ def case_eeprom_corrupt(p, prm, tier='thorough'):
         if ref is None:
             p.add('eeprom_unknown_version_not_judged')
             continue
-        if bool(r.valid) != ref:
-            p.violation('eeprom:corrupt:valid_mismatch:%s:lib_%s' % (region, bool(r.valid)),
-                        what + 'library valid=%r but recomputed checksum %s the stored one'
-                        % (r.valid, 'equals' if ref else 'differs from'), rp)
         if region not in ('version', 'outside'):
-            # layout unchanged: one changed byte always changes the sum or the stored checksum
+            # layout unchanged: one changed byte always changes the sum or the stored checksum,
+            # so "valid follows the checksum" here means "every such corruption is detected"
             if ref:
                 raise AssertionError('oracle: single byte change left the checksum intact')
-            if r.valid:
-                p.violation('eeprom:corrupt:undetected:' + region, what + 'corruption not detected', rp)
+            p.add('eeprom_single_byte_corruptions_detected' if not r.valid else 'eeprom_single_byte_corruptions_missed')
+        if bool(r.valid) != ref:
+            p.violation('eeprom:corrupt:valid_mismatch:%s:lib_%s' % (region, bool(r.valid)),
+                        what + 'library valid=%r but recomputed checksum %s the stored one%s'
+                        % (r.valid, 'equals' if ref else 'differs from',
+                           '' if ref else ' (single-byte corruption not detected)'), rp)
         if calls != [True]:
             p.violation('eeprom:corrupt:no_report:' + region, what + 'update callback called %d times'
                         % len(calls), rp)
@@ -603,7 +606,7 @@ def _subsets(max_size):
 
 def gen_lh_helper(tier):
     k = 0
-    for s in _subsets(2 if tier == 'quick' else 3):
+    for s in _subsets(2 if tier == 'quick' else 4):
         for nbs in (16, 2):
             k += 1
             yield {'ids': list(s), 'nbs': nbs, 'k': k, 'descending': bool(k % 2)}
@@ -774,7 +777,8 @@ def gen_param_file(tier):
         for si in range(-1, len(PF_VALUES)):
             k += 1
             yield {'entries': [[PF_NAMES[k % len(PF_NAMES)], si >= 0, di, si]]}
-    for n in (0, 2, 3, len(PF_NAMES)):
+    yield {'entries': []}
+    for n in (2, 3, len(PF_NAMES)):
         for rot in range(len(PF_VALUES) if tier != 'quick' else 5):
             yield {'entries': [[PF_NAMES[(j + rot) % len(PF_NAMES)], (j + rot) % 3 != 0, (j + rot) % len(PF_VALUES),
                                 (2 * j + rot) % len(PF_VALUES)] for j in range(n)]}
@@ -1067,7 +1071,7 @@ def case_deck(p, prm):
         p.add('deck_unsupported_version_not_judged')
         return obs
     p.case(key=('deck', slot, prm['bf1'], prm['bf2'], k), outcome=(prm['bf1'], prm['bf2'], prm['junk_bits']))
-    cls = 'junk_bits' if prm['junk_bits'] else ('name_len_%d' % prm['name_len'] if 'name_len' in prm else 'bitfields')
+    cls = 'reserved_bits_set' if prm['junk_bits'] else 'defined_bits'
     if len(okc) != 1 or failc:
         p.violation('deck:no_report:' + cls, 'query of a version-3 info section: complete x%d failed %r'
                     % (len(okc), failc), rp)
@@ -1090,7 +1094,9 @@ def case_deck(p, prm):
             p.violation('deck:numbers:' + cls, 'slot %d hash/length/base %r decode to %r'
                         % (i, e[2:5], (d.required_hash, d.required_length, d._base_address)), rp)
         if d.name != e[8]:
-            p.violation('deck:name:' + cls, 'slot %d name bytes %r decode to %r, expected %r' % (i, e[5], d.name, e[8]), rp)
+            ncls = 'len18_no_terminator' if len(e[8]) == 18 else (
+                'terminated_stale_bytes_follow' if len(e[5]) > len(e[8]) else 'terminated')
+            p.violation('deck:name:' + ncls, 'slot %d name bytes %r decode to %r, expected %r' % (i, e[5], d.name, e[8]), rp)
     obs['decks_found'] = sorted(res)
     return obs
 
@@ -1206,6 +1212,136 @@ def case_loco(p, prm):
     return obs
 
 
+# ================================================= environment model vs. the real Memory class ====
+
+class _CrtpDevice:
+    """A Crazyflie seen from below cflib.crazyflie.mem.Memory: answers MEM-port packets from byte images.
+    Used only to confirm that ByteMem delivers what the real Memory class delivers."""
+
+    def __init__(self, mems):
+        from cflib.utils.callbacks import Caller
+        self.mems = mems                      # list of (type, bytearray image, addr8)
+        self.disconnected = Caller()
+        self.port_cb = None
+        self.replies = []
+        self.sent = 0
+
+    def add_port_callback(self, port, cb):
+        self.port_cb = cb
+
+    def send_packet(self, pk, expected_reply=(), resend=False, timeout=0.2):
+        from cflib.crtp.crtpstack import CRTPPacket
+        self.sent += 1
+        d = bytes(pk.data)
+        out = CRTPPacket()
+        out.set_header(pk.port, pk.channel)
+        if pk.channel == 0:
+            if d[0] == 1:
+                out.data = bytes([1, len(self.mems)])
+            else:
+                t, img, a8 = self.mems[d[1]]
+                out.data = bytes([2, d[1], t]) + struct.pack('<I', len(img)) + a8
+        elif pk.channel == 1:
+            mid, addr, n = struct.unpack('<BIB', d)
+            img = self.mems[mid][1]
+            if addr + n <= len(img):
+                out.data = struct.pack('<BIB', mid, addr, 0) + bytes(img[addr:addr + n])
+            else:
+                out.data = struct.pack('<BIB', mid, addr, 5)
+        else:
+            mid, addr = struct.unpack('<BI', d[:5])
+            img = self.mems[mid][1]
+            if addr + len(d) - 5 <= len(img):
+                img[addr:addr + len(d) - 5] = d[5:]
+                out.data = struct.pack('<BIB', mid, addr, 0)
+            else:
+                out.data = struct.pack('<BIB', mid, addr, 5)
+        self.replies.append(out)
+
+    def pump(self):
+        n = 0
+        while self.replies:
+            n += 1
+            self.port_cb(self.replies.pop(0))
+        return n
+
+
+def gen_realmem(tier):
+    for bi in range(len(_ow_bases(tier))):
+        yield {'kind': 'ow', 'base': bi, 'tier_bases': tier}
+    for bi in range(len(EE_BASES_THOROUGH)):
+        for pos, mask in ((None, 0), (4, 1), (7, 0x80), (15, 1), (0, 2)):
+            yield {'kind': 'ee', 'base': bi, 'pos': pos, 'mask': mask}
+    for bs in (0, 1, 15):
+        yield {'kind': 'lh', 'bs': bs}
+
+
+def case_realmem(p, prm):
+    from cflib.crazyflie.mem import Memory
+    obs = {'image': 'same image through the real Memory class and through ByteMem', 'kind': prm['kind']}
+    if prm['kind'] == 'ow':
+        pins, vid, pid, we = _ow_bases(prm['tier_bases'])[prm['base']]
+        img = D.ow_image(pins, vid, pid, we)
+        img = bytearray(img + b'\xff' * (112 - len(img)))
+        dev = _CrtpDevice([(0, bytearray(64), bytes(8)), (1, bytearray(img), bytes(range(8)))])
+        mem = Memory(dev)
+        done = []
+        mem.refresh(lambda: done.append(1))
+        pk = dev.pump()
+        a = mem.get_mem(1)
+        b, calls, err, _, _ = _ow_read(img, 112)
+        sa = (a.valid, a.pins, a.vid, a.pid, dict(a.elements), len(done))
+        sb = (b.valid, b.pins, b.vid, b.pid, dict(b.elements), len(calls))
+    elif prm['kind'] == 'ee':
+        ver, ch, sp, pitch, roll, addr = EE_BASES_THOROUGH[prm['base']]
+        img = D.eeprom_image(ver, ch, sp, pitch, roll, addr)
+        img = bytearray(img + b'\xff' * (32 - len(img)))
+        if prm['pos'] is not None:
+            img[prm['pos']] ^= prm['mask']
+        dev = _CrtpDevice([(0, bytearray(img), bytes(8))])
+        mem = Memory(dev)
+        mem.refresh(lambda: None)
+        dev.pump()
+        a = mem.get_mem(0)
+        done = []
+        a.update(lambda m: done.append(1))
+        pk = dev.pump()
+        b, calls, err = _ee_read(img)
+        sa = (a.valid, repr(sorted(a.elements.items())), len(done))
+        sb = (b.valid, repr(sorted(b.elements.items())), len(calls))
+    else:
+        bs = prm['bs']
+        dev = _CrtpDevice([(0x14, bytearray(0x2000), bytes(8))])
+        mem = Memory(dev)
+        mem.refresh(lambda: None)
+        dev.pump()
+        a = mem.get_mem(0)
+        geo, v = _mk_geo(bs, True)
+        got = []
+        a.write_geo_data(bs, geo, lambda m, ad: got.append(ad))
+        pk = dev.pump()
+        a.read_geo_data(bs, lambda m, g: got.append(_geo_diff(g, v, True)))
+        pk += dev.pump()
+        h = ByteMem(0x2000, fill=0)
+        from cflib.crazyflie.mem.lighthouse_memory import LighthouseMemory
+        m2 = h.attach(LighthouseMemory(id=0, type=0x14, size=0x2000, mem_handler=h))
+        got2 = []
+        m2.write_geo_data(bs, geo, lambda m, ad: got2.append(ad))
+        h.pump()
+        m2.read_geo_data(bs, lambda m, g: got2.append(_geo_diff(g, v, True)))
+        h.pump()
+        sa = (bytes(dev.mems[0][1]), got)
+        sb = (bytes(h.img), got2)
+    obs['crtp_packets'] = pk
+    obs['agree'] = sa == sb
+    p.case(key=('realmem', repr(prm)), outcome=(prm['kind'], sa == sb))
+    p.add('traces_validated_against_impl')
+    if sa != sb:
+        from vf.core import HarnessError
+        raise HarnessError('ByteMem and the real Memory class disagree for %r: %r vs %r' % (prm, sa, sb))
+    return obs
+
+
 # ==================================================================================== driver ====
 
 PARTS = {
@@ -1221,9 +1357,10 @@ PARTS = {
     'led': (gen_led, case_led, 2),
     'deck': (gen_deck, case_deck, 8),
     'loco': (gen_loco, case_loco, 2),
+    'realmem': (gen_realmem, case_realmem, 1),
 }
 SAMPLE_AT = {'eeprom_rt': 5000, 'eeprom_corrupt': 300, 'ow_rt': 2000, 'ow_corrupt': 40, 'lh_mem': 500, 'lh_helper': 40,
-             'lh_file': 60, 'param_file': 50, 'traj': 340, 'led': 3000, 'deck': 1500, 'loco': 250}
+             'lh_file': 60, 'param_file': 50, 'traj': 340, 'led': 3000, 'deck': 1500, 'loco': 250, 'realmem': 9}
 NEEDS_TIER = ('eeprom_corrupt', 'ow_corrupt')
 NEEDS_TMP = ('lh_file', 'param_file')
 
@@ -1256,8 +1393,8 @@ def run(ck):
     ck.rule = ('complete cross products of the stated field alphabets per image family (EEPROM: 2 versions x 4 channels '
                'x 3 speeds x 9x9 float32 trims x 7 addresses; 1-wire: every single-element length 0..253 per id, every '
                'ordered pair of ids x lengths 0..30 x 0..30, triples, 45 header combinations; lighthouse: 16 base '
-               'stations x valid flag x float32 extremes in every slot, every subset of <=2 (quick) / <=3 helper, <=4 '
-               'file (thorough) of 16 stations; all 128x4 deck bit-field combinations in each of 8 slots; names of '
+               'stations x valid flag x float32 extremes in every slot, every subset of <=2 (quick) / <=4 '
+               '(thorough) of 16 stations; all 128x4 deck bit-field combinations in each of 8 slots; names of '
                'length 0..18; 0..16 anchors), and for corruption every byte position of each base image x XOR masks '
                '(quick: 8 single-bit, thorough: all 255). distinct = distinct (family, input) tuples; an outcome is the '
                'observed verdict class')
